@@ -463,7 +463,8 @@ def lower_guards(text, match_off, log, name):
         arms.append({"pat": pat, "guard": guard, "guard_span": guard_span})
     guards = [a for a in arms if a["guard"]]
     if not guards:
-        raise AnchorLost(f"{name}: match has no guards to lower")
+        log.append(f"R8 {name}: `match {text[scrut[0]:scrut[1]]}` has no guards: nothing to lower")
+        return []
     for a in guards:
         g = text[a["guard"][0]:a["guard"][1]]
         ptxt = text[a["pat"][0]:a["pat"][1]]
